@@ -39,6 +39,7 @@ def nodes(prog, pred):
             for x in n:
                 visit(x)
     visit(prog["funs"])
+    visit(prog.get("meths", []))
     visit(prog["main"])
     return found
 
